@@ -4,8 +4,12 @@ package operations
 
 import (
 	"errors"
+	"reflect"
 	"strconv"
 	"strings"
+
+	"github.com/go-openapi/strfmt"
+	"github.com/mitchellh/mapstructure"
 )
 
 // vCheckVerdict: the generated binder and the reference semantics must agree
@@ -90,3 +94,31 @@ func vFloatText(conv string, f float64, ok bool) string {
 	}
 	return strconv.FormatFloat(f, 'g', -1, 64)
 }
+
+// vFormats is the format registry handed to the binders: whether a text parses as / is a
+// well-formed value of a named format are oracle bits of the run
+type vFormats struct{ parses, valid bool }
+
+func (f vFormats) Add(string, strfmt.Format, strfmt.Validator) bool { return false }
+func (f vFormats) DelByName(string) bool                            { return false }
+func (f vFormats) GetType(string) (reflect.Type, bool)              { return nil, false }
+func (f vFormats) ContainsName(string) bool                         { return true }
+func (f vFormats) Validates(name, data string) bool                 { return f.valid }
+func (f vFormats) Parse(name, data string) (interface{}, error) {
+	if !f.parses {
+		return nil, errors.New("does not parse")
+	}
+	switch name {
+	case "uuid":
+		v := strfmt.UUID(data)
+		return &v, nil
+	case "email":
+		v := strfmt.Email(data)
+		return &v, nil
+	case "hostname":
+		v := strfmt.Hostname(data)
+		return &v, nil
+	}
+	return nil, errors.New("unknown format")
+}
+func (f vFormats) MapStructureHookFunc() mapstructure.DecodeHookFunc { return nil }
